@@ -27,8 +27,32 @@ static void run_tree(Rng &r, uint64_t index)
 {
     tg::GenOpts o;
     o.max_ports = 10; o.max_depth = 4; o.p_enum = 0.3; o.p_sub = 0.3; o.allow_derived = false; o.p_default = 0; o.p_dup = 0; o.multi_component = true; o.max_enum = 4; o.unique_names = true;
+    if(r.chance(0.25)) { o.max_enum = 16; o.max_depth = 3; }   // two-digit indices
     tg::Tree t;
-    if(index == 0) {
+    if(index % 64 == 1) {
+        // three-digit indices (100..) on a leaf and on a sub-tree port
+        int N1 = (int)r.range(99, 131), N2 = (int)r.range(9, 12);
+        t.tables.emplace_back(new tg::Table);
+        tg::Table *sub = t.tables.back().get();
+        t.tables.emplace_back(new tg::Table);
+        tg::Table *tb = t.tables.back().get();
+        auto add = [&](tg::Table *owner, const std::string &name, const std::string &spec, tg::Table *subt) {
+            std::unique_ptr<tg::PortDesc> pd(new tg::PortDesc);
+            pd->id = t.next_id++; pd->owner = owner; pd->name = name; pd->spec = spec; pd->full = name + spec; pd->sub = subt;
+            pd->pattern = tg::parse_name(pd->name, pd->spec);
+            pd->index_in_table = (int)owner->ports.size();
+            if(t.all_ports.size() <= (size_t)pd->id) t.all_ports.resize(pd->id + 1);
+            t.all_ports[pd->id] = pd.get();
+            owner->ports.push_back(std::move(pd));
+        };
+        add(sub, fmt("v#%d", N2), "::i", nullptr);
+        add(sub, "w", "", nullptr);
+        add(tb, fmt("g#%d", N1), "::i", nullptr);
+        add(tb, fmt("p#%d/", r.chance(0.5) ? N2 : 101), "", sub);
+        t.root = tb;
+        tg::realize(t, tb, r, o);
+        count("tree.three_digit_indices");
+    } else if(index == 0) {
         // dedicated witness: a leaf whose name carries two enumerations (upstream: "#if 0" in test/walk-ports.cpp)
         t.tables.emplace_back(new tg::Table);
         tg::Table *tb = t.tables.back().get();
@@ -121,7 +145,7 @@ static void run_zoo(Rng &r)
     // bits: mid.en, mid.leaf.on, many0.on, many1.on, many2.on, top.on, ptr null, ptr_target.on
     int nbits = 8;
     unsigned states = 1u << nbits;
-    std::string cdesc = fmt("zoo placement=%d many=%d ptr=%d top=%d leaf ports:", c.enable_placement, c.has_many, c.has_ptr, c.has_top);
+    std::string cdesc = fmt("zoo placement=%d many=%d ptr=%d%s top=%d toggle=%s leaf ports:", c.enable_placement, c.has_many, c.has_ptr, c.ptr_gated ? "(enabled by toggle)" : "", c.has_top, c.en_name.c_str());
     for(auto &n : c.leaf.order) cdesc += " " + n;
     describe_case(cdesc);
     distinct(hash_str(cdesc));
@@ -147,11 +171,14 @@ static void run_zoo(Rng &r)
             }
             if(c.enable_placement == 2 && self_on) e.insert(pre + "self");
         };
-        e.insert("/vol"); e.insert("/mid/en"); e.insert("/mid/x");
+        e.insert("/vol"); e.insert("/mid/" + c.en_name); e.insert("/mid/x");
         leaf("/mid/leaf/", root.mid.leaf, c.enable_placement != 1 || root.mid.en);
         if(c.has_many) for(int i = 0; i < 3; ++i) leaf(fmt("/mid/many%d/", i), root.mid.many[i], true);
         if(c.has_top) leaf("/top/", root.top, true);
-        if(c.has_ptr) leaf("/mid/ptr/", root.ptr_target, root.mid.ptr != nullptr);
+        if(c.has_ptr) leaf("/mid/ptr/", root.ptr_target, root.mid.ptr != nullptr && (!c.ptr_gated || root.mid.en));
+        if(c.ptr_gated && !root.mid.ptr && root.mid.en) count("zoo.null_pointer_with_toggle_on");
+        if(c.ptr_gated && root.mid.ptr && !root.mid.en) count("zoo.pruned_pointer_by_toggle");
+        if(c.en_name != "en" && c.enable_placement == 1) count("zoo.toggle_name_starts_with_subtree_name");
         for(auto &x : got) g.insert(x.addr);
         count("zoo.addresses_reported", got.size());
         if(c.enable_placement == 1 && !root.mid.en) count("zoo.pruned_by_sibling_toggle");
